@@ -302,8 +302,11 @@ WebSocketMsg WebSocket::receive()
 		}
 
 		buffer.resize(buffer.length() + len);
-		if (len > 0)
-			_socket.read(buffer.data() + buffer.length() - len, len);
+		if (len > 0 && _socket.read(buffer.data() + buffer.length() - len, len) < len) // truncated payload
+		{
+			close();
+			return msg.fix();
+		}
 
 		DEBUG_LOG("frame: op %i fin %i len %i\n", opcode, fin ? 1 : 0, (int)len);
 
